@@ -279,6 +279,12 @@ def run(prop, tier, seed, replay):
         dict(rmin=1, rmax=10, zmin=0.1, zmax=1.0, unit="parsec"), dict(rmin=1, rmax=10, zmin=0.1, zmax=1.0, cosmology="Planck99"),
         dict(rmin=1, rmax=10, zmin=1.0, zmax=0.1), dict(rmin=1, rmax=10, zmin=0.5, zmax=0.5),
         dict(rmin=1, rmax=10, zmin=0.1, zmax=1.0, closed="both"),
+        # not-a-number is not "smaller than" / "increasing": edges and scale limits that are NaN are invalid parameters
+        dict(rmin=1, rmax=10, edges=[0.1, float("nan"), 1.0]), dict(rmin=1, rmax=10, edges=[float("nan"), 0.5, 1.0]),
+        dict(rmin=1, rmax=10, edges=[0.1, 0.5, float("nan")]), dict(rmin=1, rmax=10, zmin=float("nan"), zmax=1.0),
+        dict(rmin=1, rmax=10, zmin=0.1, zmax=float("nan")),
+        dict(rmin=float("nan"), rmax=10, zmin=0.1, zmax=1.0), dict(rmin=1, rmax=float("nan"), zmin=0.1, zmax=1.0),
+        dict(rmin=[1, float("nan")], rmax=[10, 20], zmin=0.1, zmax=1.0),
     ]
     for p in bad:
         cfg, err = attempt(lambda: Configuration.create(**p))
